@@ -543,6 +543,80 @@ def worker(shard):
     return acc
 
 
+BACKLOGS = (63, 64, 65, 100, 127, 128, 129, 255, 256, 257, 1000, 1025)
+
+
+def bulk_backlog(mido, rep):
+    """A large backlog pending at once (single-threaded): every message
+    exactly once, per-source order, through poll / iter_pending / blocking
+    receive / iteration.  Internal batch limits sit at such sizes."""
+    tshim, _ = install_seams(mido)
+    M = mido.Message
+    for kind in KINDS:
+        for n in BACKLOGS:
+            for how in ('poll', 'iter_pending', 'receive'):
+                s = build_port(mido, kind)
+                if not s.can_in:
+                    continue
+                rep.add('evaluations')
+                rep.add('distinct_nontrivial')
+                want = []
+                srcs = s.in_srcs or [0]
+                for j in range(n):
+                    src = srcs[j % len(srcs)]
+                    m = M('note_on', channel=src, note=j % 128,
+                          velocity=1 + (j // 128) % 100)
+                    want.append((src, j % 128, 1 + (j // 128) % 100))
+                    if kind == 'echo':
+                        s.port.send(m)
+                    else:
+                        s.devs[src].incoming.append(m)
+                case = {'kind': 'bulk', 'port': kind, 'n': n, 'how': how}
+                sleeps = [0]
+
+                def on_sleep(sec):
+                    sleeps[0] += 1
+                    raise Horizon()
+                tshim.on_sleep = on_sleep
+                got = []
+                try:
+                    if how == 'poll':
+                        while True:
+                            m = s.port.poll()
+                            if m is None:
+                                break
+                            got.append(m)
+                    elif how == 'iter_pending':
+                        got = list(s.port.iter_pending())
+                        got += list(s.port.iter_pending())
+                    else:
+                        for _ in range(n):
+                            got.append(s.port.receive())
+                except Horizon:
+                    pass
+                except Exception as e:
+                    rep.violation(f'{kind}/bulk/{how}/raised/{type(e).__name__}',
+                                  f'{kind}: backlog of {n}: {how} raised {e!r}',
+                                  case)
+                    continue
+                finally:
+                    tshim.on_sleep = None
+                have = [(m.channel, m.note, m.velocity) for m in got]
+                ok = sorted(have) == sorted(want)
+                for src in srcs:
+                    if [h for h in have if h[0] == src] != \
+                            [w for w in want if w[0] == src]:
+                        ok = False
+                if not ok:
+                    lost = len(want) - len(have)
+                    rep.violation(f'{kind}/bulk/{how}/exactly-once',
+                                  f'{kind}: backlog of {n} messages pending at '
+                                  f'once, drained with {how}: got {len(have)} '
+                                  f'({lost} lost, '
+                                  f'{len(have) - len(set(have))} duplicated or '
+                                  f'order broken)', case)
+
+
 def run():
     common.import_mido()
     thorough = common.tier() == 'thorough'
@@ -559,6 +633,8 @@ def run():
         srch.fill(rep)
         rep.add('evaluations', srch.transitions)
         rep.add('distinct_nontrivial', srch.transitions)
+    bulk_backlog(mido, rep)
+    rep.coverage['bulk_backlogs'] = list(BACKLOGS)
     rep.coverage['bfs_depth'] = depth
     rep.coverage['port_kinds'] = list(KINDS)
     rep.coverage['exhaustive'] = True
@@ -588,6 +664,10 @@ def run():
 def check_case(case):
     mido = common.import_mido()
     out = []
+    if case.get('kind') == 'bulk':
+        rep = Report(PROP, 'model_checking')
+        bulk_backlog(mido, rep)
+        return [(k, v[0].what) for k, v in rep.violations.items()]
     srch = make_search(mido, case['port'], 99)
     hist = tuple(tuple(tuple(x) if isinstance(x, list) else x for x in o)
                  for o in case['ops'])
